@@ -40,13 +40,14 @@ func TestCheck(t *testing.T) {
 	r.Assume("UDP requests larger than 512 bytes are not sent over plain UDP (default read buffer), per the design")
 	r.Assume("silence on datagram transports is observed for a bounded time; a response arriving later on the same socket is still attributed by its ID")
 	r.Assume("a connection closed by the server more than 1 s after the harness last wrote on it, and a UDP query answered only after retransmission, are counted as ambiguous, not as violations")
+	r.Assume("the servers carry the production metrics listener (prometheus.NewServerMetricsListener, as dnssvc.New installs it) next to the harness' counting listener")
 	r.Assume("DoQ answers SERVFAIL where other transports stay silent (response bit, handler wrote nothing): serveQUICStream documents 'Make sure that at least some response has been written'")
 
 	// Infrastructure.
 	metrics := &tbench.CountingMetrics{}
 	b, err := tbench.Start(tbench.Config{
 		Handler:  serverHandler(),
-		Metrics:  metrics,
+		Metrics:  newProdMetrics(metrics),
 		EnableH3: r.Thorough(),
 		DNS:      tbench.StreamOptions{MaxUDPRespSize: configuredUDPMax, ReadTimeout: serverReadTimeout},
 		DoT:      tbench.StreamOptions{ReadTimeout: serverReadTimeout},
@@ -226,6 +227,10 @@ func TestCheck(t *testing.T) {
 	r.Require("class:accept/handler-silent", int64(r.N(20, 200)))
 	r.Require("class:accept/handler-error", int64(r.N(40, 400)))
 	r.Require("class:accept/handler-write-error", int64(r.N(60, 600)))
+	for _, p := range hostilePaths {
+		// Messages without any question, on every transport.
+		r.Require("zero_question_inputs:"+p.name, 15)
+	}
 	r.Require("cross_transport_comparisons", int64(r.N(3000, 30000)))
 	r.Require("handler_invocations", int64(r.N(4000, 40000)))
 	r.Require("http_proto:doh-h2-post:HTTP/2.0", int64(r.N(150, 1500)))
@@ -319,7 +324,7 @@ func (e *env) poolPhase() (ok bool) {
 	b, err := tbench.Start(tbench.Config{
 		Handler:  poolingHandler(cloner, handlerConc),
 		Disposer: cloner,
-		Metrics:  metrics,
+		Metrics:  newProdMetrics(metrics),
 		Only:     []tbench.Server{tbench.SrvDNS, tbench.SrvDoT, tbench.SrvDoH, tbench.SrvDoQ, tbench.SrvDNSCrypt},
 		DNS:      tbench.StreamOptions{MaxUDPRespSize: configuredUDPMax, ReadTimeout: serverReadTimeout},
 		DoT:      tbench.StreamOptions{ReadTimeout: serverReadTimeout},
